@@ -352,9 +352,13 @@ def translate_tables():
     gl = re.search(r"if\s+!matches!\(stream\.state,\s*StreamState::Link\)\s*\{.*?return Err\(BackendConnectionError::(\w+)\)", cb, re.S)
     if not gl:
         fails.append("router.rs: connect no longer rejects a stream that is not in Link state")
+    h1 = R.strip(open(os.path.join(MUX, "h1.rs")).read())
+    wb, _ = R.fn_body(h1, "writable")
+    lines.append("Definition gen_h1_close_after_close : bool := %s." % (
+        "true" if re.search(r"if\s+stream\.context\.keep_alive_frontend\s*&&\s*stream\.context\.keep_alive_backend\s*\{", wb) else "false"))
     lines.append("Definition gen_tables : tables :=\n  mkT gen_esd gen_connect gen_redirect_fallback gen_front_timeout gen_back_timeout\n"
                  "      (fun h2 => if h2 then gen_end_arm_h2 else gen_end_arm_h1) gen_default_answer_effs gen_force_effs gen_known_codes\n"
-                 "      gen_conn_retries gen_retry_guard_ge gen_rearm_after_write gen_rearm_delay_close gen_rearm_wait gen_rearm_backend_wait.")
+                 "      gen_conn_retries gen_retry_guard_ge gen_rearm_after_write gen_rearm_delay_close gen_rearm_wait gen_rearm_backend_wait\n      gen_h1_close_after_close.")
     return "\n".join(lines) + "\n", fails
 
 
@@ -473,4 +477,209 @@ LEVEL_NOTE = ("PARTIAL: the decision logic is proved on the model; the binding o
               "(mio readiness, timer wheel, kernel socket semantics, kawa parsing) is by generated tables plus black-box runs, "
               "not by proof. 1xx interim responses, upgrades and H2 backends are outside the automaton's alphabet.")
 TECHNIQUE = "Rocq/Coq proof over an executable Gallina model + source translator (T-table) + differential correspondence + black-box fault enumeration"
-CLAIMED = False
+CLAIMED = True
+
+
+# ---------------------------------------------------------------------------
+# black-box fault enumeration (extra_stage): real worker, scripted peers
+
+HARNESS_BINS = ["c02", "c02bb"]
+HEAD_CL = b"HTTP/1.1 200 OK\r\nContent-Length: 20\r\nX-Test: abcdefgh\r\n\r\n"
+HEAD_CH = b"HTTP/1.1 200 OK\r\nTransfer-Encoding: chunked\r\n\r\n"
+HEAD_CD = b"HTTP/1.1 200 OK\r\nConnection: close\r\n\r\n"
+BODY = b"0123456789abcdefghij"
+CHUNKED = b"a\r\n0123456789\r\na\r\nabcdefghij\r\n0\r\n\r\n"
+PRE = ["req_head", "connect_ok", "req_sent"]
+
+
+def predict_inputs(kind, k):
+    """-> (list of admissible input schedules for the model, expected body length of a relayed 200 or None)"""
+    if kind in ("close_at", "reset_at", "stall_after", "chunked_close_at", "close_delim_at"):
+        head, full = {"chunked_close_at": (HEAD_CH, HEAD_CH + CHUNKED), "close_delim_at": (HEAD_CD, HEAD_CD + BODY)}.get(kind, (HEAD_CL, HEAD_CL + BODY))
+        k = min(k, len(full))
+        lost = "back_timeout" if kind == "stall_after" else "back_close"
+        if kind == "close_delim_at" and k >= len(head):
+            pre = PRE + ["back_no_keepalive", "back_head"]
+            return [pre + ["back_close", "front_write"], pre + ["front_write", "back_close", "front_write"]], k - len(head)
+        if k == 0:
+            return [PRE + [lost]], None
+        if k < len(head):
+            return [PRE + ["back_partial", lost]], None
+        if k < len(full):
+            pre = PRE + ["back_head"]
+            return [pre + [lost, "front_write", "front_timeout"],
+                    pre + ["front_write", lost, "front_write", "front_timeout"],
+                    pre + ["front_write_partial", lost, "front_write", "front_timeout"]], None
+        if kind == "stall_after":
+            return [PRE + ["back_head", "back_end", "front_write"]], 20
+        return [PRE + ["back_head", "back_end", "front_write"]], 20
+    if kind == "refuse":
+        return [["req_head"] + ["connect_ok", "back_close"] * 3 + ["connect_ok"]], None
+    if kind == "stall":
+        return [PRE + ["back_timeout"]], None
+    if kind == "garbage":
+        return [PRE + ["back_garbage"]], None
+    if kind == "nohost":
+        return [["req_head", "KNoClusterFound"]], None
+    if kind == "nobackend":
+        return [["req_head", "KNoBackendForCluster"]], None
+    if kind == "redirect":
+        return [["req_head", "KHttpsRedirect"]], None
+    if kind == "slow_client":
+        return [["front_timeout"]], None
+    raise ValueError(kind)
+
+
+def classify_events(toks):
+    """model event tokens of one request -> class"""
+    evs = []
+    i = 0
+    while i < len(toks):
+        t = toks[i]
+        if t == "default":
+            evs.append(("default", toks[i + 1])); i += 2
+        elif t == "abort":
+            evs.append(("abort",)); i += 2
+        else:
+            evs.append((t,)); i += 1
+    for e in evs:
+        if e[0] == "default":
+            return "default %d" % e[1]
+    if ("relay_end",) in evs:
+        return "relay"
+    if ("abort",) in evs or ("relay_start",) in evs:
+        return "abort"
+    return "none"
+
+
+def classify_obs(r):
+    if r.get("hang"):
+        return "hang"
+    if r["complete"] and r["status"] == 200:
+        return "relay"
+    if r["complete"] and r["status"]:
+        return "default %d" % r["status"]
+    if r["eof"]:
+        return "abort"
+    return "none"
+
+
+def bb_scenarios(tier, rng):
+    s = [("close_at", k) for k in (0, 9, 17, 30, 57, 58, 59, 70, 77, 78)]
+    s += [("refuse", 0), ("stall", 0), ("stall_after", 65), ("reset_at", 0), ("reset_at", 65), ("garbage", 0),
+          ("nohost", 0), ("nobackend", 0), ("redirect", 0), ("slow_client", 0),
+          ("chunked_close_at", 60), ("chunked_close_at", len(HEAD_CH + CHUNKED)),
+          ("close_delim_at", 50), ("close_delim_at", len(HEAD_CD + BODY)), ("keepalive_close", 0)]
+    if tier != "quick":
+        s += [("close_at", k) for k in range(0, len(HEAD_CL + BODY) + 1)]
+        s += [("reset_at", k) for k in range(0, len(HEAD_CL + BODY), 3)]
+        s += [("chunked_close_at", k) for k in range(0, len(HEAD_CH + CHUNKED) + 1, 2)]
+        s += [("close_delim_at", k) for k in range(len(HEAD_CD) - 3, len(HEAD_CD + BODY) + 1)]
+        s += [("stall_after", k) for k in (0, 20, 58, 60, 77)]
+    return s
+
+
+def run_bb(scns, work, tag):
+    p = os.path.join(work, "bb_%s.txt" % tag)
+    with open(p, "w") as f:
+        for i, (kind, k) in enumerate(scns):
+            f.write("scn %d %s %d\n" % (i, kind, k))
+    rc, o, e, dt = vlib.sh([vlib.harness_path("c02bb"), p], timeout=240, cwd=work)
+    res = {}
+    for line in o.splitlines():
+        w = line.split()
+        if len(w) >= 3 and w[0] == "res":
+            d = {}
+            for kv in w[3:]:
+                if "=" in kv:
+                    a, b = kv.split("=", 1)
+                    d[a] = int(b)
+            res.setdefault(int(w[1]), []).append(d)
+    return rc, res, e[-400:]
+
+
+def model_predictions(schedules, work):
+    """runs the extracted model on `auto` ops; -> list of event-token lists"""
+    drv, prob = vlib.model_build(RUN_MODULE, RUN_FN)
+    if drv is None:
+        raise RuntimeError(prob)
+    p = os.path.join(work, "bb_model.txt")
+    with open(p, "w") as f:
+        f.write("case 0\n")
+        for sch in schedules:
+            f.write("op auto 0 0 " + " ".join(sch) + "\n")
+        f.write("end\n")
+    rc, out, e, dt = vlib.sh([drv, p, "--print"], timeout=120, cwd=work)
+    rows = [l.split()[2:] for l in out.splitlines() if l.startswith("mobs")]
+    return [[vlib.tok_parse(x) for x in r] for r in rows]
+
+
+def extra_stage(tier, rng, work):
+    scns = bb_scenarios(tier, rng)
+    failures, viols = [], []
+    # predictions
+    flat, index = [], []
+    for kind, k in scns:
+        if kind == "keepalive_close":
+            index.append(None)
+            continue
+        sch, blen = predict_inputs(kind, k)
+        index.append((len(flat), len(sch), blen))
+        flat += sch
+    try:
+        preds = model_predictions(flat, work)
+    except Exception as ex:
+        return dict(failures=["black-box: model predictions unavailable: %r" % (ex,)], viols=[], coverage={})
+    if len(preds) != len(flat):
+        return dict(failures=["black-box: model printed %d predictions for %d schedules" % (len(preds), len(flat))], viols=[], coverage={})
+
+    def judge(res):
+        """-> list of (scenario index, class, text) disagreements / property violations"""
+        bad = []
+        for i, (kind, k) in enumerate(scns):
+            rs = res.get(i)
+            if not rs:
+                bad.append((i, "bb-no-result", "%s %d: no result from the driver" % (kind, k)))
+                continue
+            for r in rs:
+                if r.get("hang"):
+                    bad.append((i, "bb-hang", "%s %d: no answer and no close within the deadline" % (kind, k)))
+                if r.get("extra"):
+                    bad.append((i, "bb-two-answers", "%s %d: %d bytes follow a complete response" % (kind, k, r["extra"])))
+            if kind == "keepalive_close":
+                cl = [classify_obs(r) for r in rs]
+                if cl[0] != "relay" or (len(cl) > 1 and cl[1] not in ("relay", "default 502", "default 503")) or len(cl) < 2:
+                    bad.append((i, "bb-keepalive", "keepalive_close: observed %s" % cl))
+                for r in rs:
+                    if classify_obs(r) == "relay" and r["body"] != 20:
+                        bad.append((i, "bb-body", "keepalive_close: relayed body has %d bytes, backend sent 20" % r["body"]))
+                continue
+            start, n, blen = index[i]
+            want = sorted(set(classify_events(p) for p in preds[start:start + n]))
+            got = classify_obs(rs[0])
+            if got not in want:
+                bad.append((i, "bb-mismatch", "%s %d: client observed '%s', the automaton predicts %s" % (kind, k, got, want)))
+            if got == "abort" and rs[0]["status"] == 0 and "abort" in want and kind != "slow_client":
+                # the request was fully received and the client got no byte at all, only a close
+                bad.append((i, "bb-no-answer", "%s %d: no answer: the backend was lost after a complete response head, nothing was forwarded and the connection was closed after %d ms without any response" % (kind, k, rs[0].get("ms", 0))))
+            if got == "relay" and blen is not None and rs[0]["body"] != blen:
+                bad.append((i, "bb-body", "%s %d: relayed body has %d bytes, backend sent %d" % (kind, k, rs[0]["body"], blen)))
+        return bad
+
+    rc, res, err = run_bb(scns, work, "0")
+    if rc != 0:
+        failures.append("black-box driver exit %d: %s" % (rc, err))
+    bad = judge(res)
+    # a disagreement only counts if it reproduces on 3 re-runs
+    confirmed = []
+    if bad:
+        again = [set((i, c) for i, c, _ in judge(run_bb(scns, work, str(n))[1])) for n in (1, 2, 3)]
+        for (i, c, t) in bad:
+            if all((i, c) in a for a in again):
+                confirmed.append((i, c, t))
+    for (i, c, t) in confirmed:
+        kind, k = scns[i]
+        viols.append((Case("bb%d" % i, [["blackbox", kind, k]]), c, t))
+    cov = dict(blackbox_scenarios=len(scns), blackbox_disagreements_first_run=len(bad), blackbox_confirmed=len(confirmed),
+               blackbox_kinds=sorted(set(k for k, _ in scns)))
+    return dict(failures=failures, viols=viols, coverage=cov)
